@@ -78,6 +78,16 @@ def apply_op(U, op, letters):
             t[key] = op["num"]
         rule = None if list(t.dims.letters) == list(letters["t"]) else "target order changed"
         return MArr.from_flodym(t), rule
+    if k == "chain":
+        # slice once, re-order all dims through sum_to / cast_to, then slice the re-ordered array:
+        # the second result must not depend on how the FIRST array stored its dims
+        x = arr("x")
+        _ = x[make_key(U, op["sel0"], "dict_letter")]
+        r = x.sum_to(tuple(op["dims"])) if op["via"] == "sum_to" else x.cast_to(x.dims.get_subset(tuple(op["dims"])))
+        res = r[make_key(U, op["sel"], op["syntax"])]
+        rl, _, _ = region(U, op["dims"], op["sel"])
+        rule = None if list(res.dims.letters) == list(rl) else f"chain order {res.dims.letters} vs {rl}"
+        return MArr.from_flodym(res), rule
     if k == "getslice":
         x = arr("x")
         res = x[make_key(U, op["sel"], op["syntax"])]
@@ -197,7 +207,7 @@ def run_case(desc):
 
 @st.composite
 def cases(draw, max_dims=4, max_len=3):
-    kind = draw(st.sampled_from(["bin", "bin", "unary", "setall", "setslice", "setslice", "getslice", "getslice", "sum_to", "sum_over", "cumsum", "shares", "cast_to", "to_df", "from_df", "split", "stack", "lifetime"]))
+    kind = draw(st.sampled_from(["bin", "bin", "unary", "setall", "setslice", "setslice", "getslice", "getslice", "chain", "sum_to", "sum_over", "cumsum", "shares", "cast_to", "to_df", "from_df", "split", "stack", "lifetime"]))
     if kind == "lifetime":
         U = draw(gen.universes(min_dims=2, max_dims=max_dims, max_len=max_len, min_len=3, with_time=True, kinds=("int",)))
         # time items: strictly increasing ints
@@ -238,6 +248,16 @@ def cases(draw, max_dims=4, max_len=3):
             A["y"] = {"letters": list(draw(st.permutations(rl + extra))), "mode": "coded", "tag": "y"}
         else:
             op["num"] = 4.5
+    elif kind == "chain":
+        xl = new("x", min_dims=2)
+        op["sel0"] = draw(selectors(U, xl, allow_list=False, force_nonempty=True))
+        if not op["sel0"]:
+            l0 = xl[0]
+            op["sel0"] = {l0: {"kind": "single", "items": [build.udim(U, l0)["items"][0]]}}
+        op["dims"] = list(draw(st.permutations(xl)))
+        op["via"] = draw(st.sampled_from(["sum_to", "cast_to"]))
+        op["sel"] = draw(selectors(U, xl, allow_list=False))
+        op["syntax"] = draw(st.sampled_from(["dict_letter", "dict_name"]))
     elif kind == "getslice":
         xl = new("x", min_dims=2)
         op["sel"] = draw(selectors(U, xl, allow_list=False))
